@@ -73,6 +73,22 @@ func (r *Rule) String() string {
 	return string(b)
 }
 
+// Clone returns a copy of the rule that shares no slice with it.
+func (r *Rule) Clone() *Rule {
+	clone := *r
+	clone.StartKey = append(r.StartKey[:0:0], r.StartKey...)
+	clone.EndKey = append(r.EndKey[:0:0], r.EndKey...)
+	clone.LocationLabels = append(r.LocationLabels[:0:0], r.LocationLabels...)
+	if r.LabelConstraints != nil {
+		clone.LabelConstraints = make([]LabelConstraint, len(r.LabelConstraints))
+		for i, c := range r.LabelConstraints {
+			c.Values = append(c.Values[:0:0], c.Values...)
+			clone.LabelConstraints[i] = c
+		}
+	}
+	return &clone
+}
+
 // Key returns (groupID, ID) as the global unique key of a rule.
 func (r *Rule) Key() [2]string {
 	return [2]string{r.GroupID, r.ID}
